@@ -592,6 +592,41 @@ func (f *Frame) findLoops() {
 			spec.Invs = append([]*Clause{{Label: "auto-fresh-" + phi.Comment, Src: src, Expr: e}}, spec.Invs...)
 			li.spec = spec
 		}
+		// `check accumulate`: inside a nested loop the error list is no shorter than at the head of the enclosing iteration
+		// (automatic, checked like a written invariant; it carries the outer loop's accumulation across the inner loop)
+		if _, acc := f.checkProps("accumulate"); acc {
+			nested := false
+			for _, h2 := range headers {
+				if l2 := f.loops[h2]; l2 != li && l2.blocks[h] {
+					for _, in2 := range h2.Instrs {
+						if p2, ok := in2.(*ssa.Phi); ok && f.isErrResult(p2.Comment) {
+							nested = true
+						}
+					}
+				}
+			}
+			for _, in := range h.Instrs {
+				phi, ok := in.(*ssa.Phi)
+				if !ok {
+					break
+				}
+				if !nested || !f.isErrResult(phi.Comment) {
+					continue
+				}
+				src := fmt.Sprintf("len(%s) >= atouter(len(%s))", phi.Comment, phi.Comment)
+				e, err := parseExpr(src)
+				if err != nil {
+					continue
+				}
+				spec := &LoopSpec{}
+				if li.spec != nil {
+					*spec = *li.spec
+				}
+				props, _ := f.checkProps("accumulate")
+				spec.Invs = append([]*Clause{{Label: "auto-accumulates-" + phi.Comment, Src: src, Expr: e, Props: props}}, spec.Invs...)
+				li.spec = spec
+			}
+		}
 		li.mods = ModSet{}
 		inScope := func(in ssa.Instruction) bool { return li.blocks[in.Block()] }
 		for b := range li.blocks {
@@ -981,6 +1016,30 @@ func (f *Frame) backEdge(from, h *ssa.BasicBlock, ep T) {
 		f.addUses(o, li.spec.Uses, tr)
 		f.unassumeLast()
 	}
+	if props, ok := f.checkProps("accumulate"); ok {
+		// `check accumulate`: a named result of type []error that is carried round this loop only grows: an iteration
+		// does not drop what earlier iterations collected
+		res := f.fn.Signature.Results()
+		for i := 0; i < res.Len(); i++ {
+			sl, isSl := res.At(i).Type().Underlying().(*types.Slice)
+			if !isSl || types.TypeString(sl.Elem(), nil) != "error" || res.At(i).Name() == "" {
+				continue
+			}
+			for _, in := range h.Instrs {
+				phi, ok := in.(*ssa.Phi)
+				if !ok {
+					break
+				}
+				nv, have := env[phi]
+				ov, have2 := li.phiSyms[phi]
+				if phi.Comment != res.At(i).Name() || !have || !have2 {
+					continue
+				}
+				f.obligeNamed("acc", fmt.Sprintf("loop%d.accumulates(%s)@back.%s", li.ordinal, phi.Comment, tag), token.NoPos, Le(SLen(ov), SLen(nv)), props)
+				f.unassumeLast()
+			}
+		}
+	}
 	if len(li.spec.Decreases) > 0 {
 		var now []T
 		for _, d := range li.spec.Decreases {
@@ -1326,6 +1385,22 @@ func accumulatorPhi(v ssa.Value, seen map[ssa.Value]bool) bool {
 			}
 		}
 		return true
+	}
+	return false
+}
+
+
+// isErrResult: name is a named result of the function with type []error
+func (f *Frame) isErrResult(name string) bool {
+	if name == "" {
+		return false
+	}
+	res := f.fn.Signature.Results()
+	for i := 0; i < res.Len(); i++ {
+		if res.At(i).Name() == name {
+			sl, ok := res.At(i).Type().Underlying().(*types.Slice)
+			return ok && types.TypeString(sl.Elem(), nil) == "error"
+		}
 	}
 	return false
 }
